@@ -45,6 +45,9 @@ def gen_run(rng, rid, big=False, extreme=False):
         c["Cneg"] = c["Cpos"] = rng.choice([1e7, 1e8, 1e9])
         c["cachesize"] = 100000
         c["x"] = gen_points(rng, n, d, "tiny")
+        if rng.random() < 0.4:           # kernel diagonal below 1e-12 (finding edge1d:tiny-Q), single-variable steps
+            c["n"] = n = rng.randint(1, 4); c["sel"] = rng.choice(BOX_SEL); c["Cneg"] = c["Cpos"] = rng.choice([1e9, 1e11, 1e13])
+            c["x"] = [[v * 1e-3 for v in p] for p in c["x"][:n]]
         c["y"] = [i % 2 for i in range(n)]; rng.shuffle(c["y"])
         c["stream"] = "extreme"
         return c
